@@ -1,9 +1,9 @@
 SPECIFICATION Spec
 CONSTANTS
   IndentChoices <- FullIndents
-  MaxDepth = 4
+  MaxDepth = 3
   MaxWidth = 3
-  MaxEvents = 7
+  MaxEvents = 6
   ScalarKinds <- Kinds
   KeyAtoms <- Keys
 INVARIANT TypeOK
